@@ -52,13 +52,17 @@ func c05State(e *Env, ctx sdk.Context) (term string, nfiles, ngauges int, desc m
 	fdesc := []interface{}{}
 	for _, f := range files {
 		slots := []string{}
+		keyID := map[string]int{}
 		for _, pk := range f.Proofs {
+			if _, ok := keyID[pk]; !ok {
+				keyID[pk] = len(keyID) + 1
+			}
 			pr, found := k.GetProofWithBuiltKey(ctx, []byte(pk))
 			last := int64(0)
 			if found {
 				last = pr.LastProven
 			}
-			slots = append(slots, fmt.Sprintf("{| sl_found := %s; sl_last := %s |}", cBool(found), cZ(last)))
+			slots = append(slots, fmt.Sprintf("{| sl_key := %s; sl_found := %s; sl_last := %s |}", cN(uint64(keyID[pk])), cBool(found), cZ(last)))
 		}
 		fts = append(fts, fmt.Sprintf("{| bf_size := %s; bf_interval := %s; bf_start := %s; bf_slots := %s |}", cZ(f.FileSize), cZ(f.ProofInterval), cZ(f.Start), cList(slots)))
 		fdesc = append(fdesc, map[string]interface{}{"size": f.FileSize, "interval": f.ProofInterval, "start": f.Start, "proofs": len(f.Proofs)})
@@ -204,8 +208,16 @@ func runC05(r *RunCtx) error {
 			f := storagetypes.UnifiedFile{Merkle: []byte{byte(i), byte(j), 7}, Owner: owner, Start: start, FileSize: PickOne(p, []int64{1, 1000, 1 << 40, 1<<62 + 5}), ProofInterval: interval, MaxProofs: 3, Note: "{}", Proofs: []string{}}
 			ns := p.Intn(4)
 			for s := 0; s < ns; s++ {
-				prover := Acct(30 + s).String()
+				prover := Spell(Acct(30+s), p.Chance(1, 6))
 				f.Proofs = append(f.Proofs, f.MakeProofKey(prover))
+				if p.Chance(1, 2) { // a provider record with whatever the unvalidated messages can put there
+					k.SetProviders(ctx, storagetypes.Providers{Address: prover, Creator: prover, Ip: "https://p.example.com",
+						Totalspace: PickOne(p, []string{"1000000", "0", "-1", "-9223372036854775808", "9223372036854775807", "", "abc"}),
+						BurnedContracts: PickOne(p, []string{"0", "7", "", "x", "9223372036854775807"})})
+				}
+				if p.Chance(1, 12) && len(f.Proofs) < 3 { // the same key twice (cannot arise from messages; must still be modelled faithfully)
+					f.Proofs = append(f.Proofs, f.MakeProofKey(prover))
+				}
 				if !p.Chance(1, 6) { // the record exists
 					var last int64
 					switch p.Intn(5) {
@@ -426,8 +438,9 @@ func c05Chain(r *RunCtx, c int) error {
 		nm := 1 + p.Intn(5)
 		for m := 0; m < nm; m++ {
 			u := PickOne(p, users)
+			us := Spell(u, p.Chance(1, 5)) // bech32 also accepts the all-upper-case spelling
 			var msg sdk.Msg
-			kind := p.Intn(9)
+			kind := p.Intn(12)
 			switch kind {
 			case 0, 1: // plan-less / pay-once posts with extreme sizes, replication and expiries
 				data := []byte(fmt.Sprintf("file-%d-%d-%d", c, b, m))
@@ -443,24 +456,30 @@ func c05Chain(r *RunCtx, c int) error {
 				case 1:
 					exp = PickOne(p, ext)
 				}
-				pm := &storagetypes.MsgPostFile{Creator: u.String(), Merkle: root, FileSize: size, ProofType: 0, MaxProofs: PickOne(p, []int64{1, 3, 1 << 40, 0, -1, 1 << 62}), Expires: exp, Note: "{}"}
+				pm := &storagetypes.MsgPostFile{Creator: us, Merkle: root, FileSize: size, ProofType: 0, MaxProofs: PickOne(p, []int64{1, 3, 1 << 40, 0, -1, 1 << 62}), Expires: exp, Note: "{}"}
 				msg = pm
-				files = append(files, posted{root, u.String(), e.Height, item, pj})
+				files = append(files, posted{root, us, e.Height, item, pj})
 			case 2: // plans with extreme sizes and durations
-				msg = &storagetypes.MsgBuyStorage{Creator: u.String(), ForAddress: PickOne(p, users).String(), DurationDays: PickOne(p, []int64{30, 31, 365, 1, 0, -1, 1 << 40, 1<<63 - 1}), Bytes: PickOne(p, []int64{1_000_000_000, 5_000_000_000_000, 1, 0, -1, 1 << 62, 1<<63 - 1}), PaymentDenom: "ujkl", Referral: ""}
+				msg = &storagetypes.MsgBuyStorage{Creator: us, ForAddress: PickOne(p, users).String(), DurationDays: PickOne(p, []int64{30, 30, 31, 365, 1, 0, -1, 1 << 40, 1<<63 - 1}), Bytes: PickOne(p, []int64{1_000_000_000, 3_000_000_000, 5_000_000_000_000, 1, 0, -1, 1 << 62, 1<<63 - 1}), PaymentDenom: "ujkl", Referral: ""}
 			case 3, 4: // proofs: honest for one-chunk files, garbage otherwise
 				if len(files) == 0 {
 					continue
 				}
 				f := PickOne(p, files)
-				pm := &storagetypes.MsgPostProof{Creator: u.String(), Item: f.item, HashList: f.proof, Merkle: f.root, Owner: f.owner, Start: f.start, ToProve: 0}
+				pm := &storagetypes.MsgPostProof{Creator: us, Item: f.item, HashList: f.proof, Merkle: f.root, Owner: f.owner, Start: f.start, ToProve: 0}
 				if p.Chance(1, 4) {
 					pm.HashList = []byte("{}")
 					pm.ToProve = PickOne(p, ext)
 				}
 				msg = pm
 			case 5:
-				msg = &storagetypes.MsgInitProvider{Creator: u.String(), Ip: "https://node.example.com", Keybase: "", TotalSpace: PickOne(p, ext)}
+				msg = &storagetypes.MsgInitProvider{Creator: us, Ip: "https://node.example.com", Keybase: "", TotalSpace: PickOne(p, ext)}
+			case 9:
+				msg = &storagetypes.MsgSetProviderTotalSpace{Creator: us, Space: PickOne(p, ext)}
+			case 10:
+				msg = &storagetypes.MsgSetProviderIP{Creator: us, Ip: PickOne(p, []string{"https://a.b.c", "http://localhost:3333", "x"})}
+			case 11:
+				msg = &storagetypes.MsgSetProviderKeybase{Creator: us, Keybase: PickOne(p, []string{"", "kb", strings.Repeat("k", 300)})}
 			case 6:
 				if len(files) == 0 {
 					continue
